@@ -65,6 +65,7 @@ MASA::manufactured_solution<Scalar>::manufactured_solution()
   std::vector<Scalar> dumvec;
 
   num_vars=0;                   // default -- will ++ for each registered variable
+  num_vec=0;                    // likewise for each registered vector
   dummy=0;
   dumvec.resize(2);
   vararr.push_back(&dummy);   // dummy used to start index at correct location
